@@ -260,6 +260,62 @@ def post_vm_begin(a, ret, st):
     return tm.B(ok)
 
 
+# ---------------------------------------------------------------- VM::end_group
+def env_fatal_error(ex, m, args, tys, st, fn, symargs):
+    st.log.append(("fatal_error",))
+    return [(st, Opaque("boxed error"))]
+
+
+def env_vec_pop(ex, m, args, tys, st, fn, symargs):
+    path = tuple(args[0].path)
+    if "SaveStackElement" in m.group(0):
+        st.log.append(("pop", path, "elem"))
+        return [(st, Enum(1, {1: [Opaque("popped save-stack element")]}, "Option"))]
+    # the font stack holds Option<Font>: the popped entry is arbitrary (a font was / was not changed in the group)
+    s2 = st.fork()
+    st.log.append(("pop", path, "font:some"))
+    s2.log.append(("pop", path, "font:none"))
+    return [(st, Enum(1, {1: [Enum(1, {1: [Opaque("saved font")]}, "Option")]}, "Option")),
+            (s2, Enum(1, {1: [Enum(0, {}, "Option")]}, "Option"))]
+
+
+def env_input_new(ex, m, args, tys, st, fn, symargs):
+    return [(st, Opaque("input"))]
+
+
+def env_restore(ex, m, args, tys, st, fn, symargs):
+    st.log.append(("restore", getattr(args[0], "what", repr(args[0]))))
+    return [(st, Agg([]))]
+
+
+def env_font_hook(ex, m, args, tys, st, fn, symargs):
+    st.log.append(("font_hook", getattr(args[1], "what", repr(args[1]))))
+    return [(st, Agg([]))]
+
+
+def post_vm_end(a, ret, st):
+    log = st.log
+    ends = [e for e in log if e[0] == "end"]
+    rest = [e for e in log if e[0] != "end"]
+    both_ok = ends == [("end", 0, "ok"), ("end", 1, "ok")]
+    if not both_ok:
+        # the command maps refused: an error is reported and nothing else is touched
+        return tm.B(ret.tag.val == 1 and rest == [("fatal_error",)])
+    if ret.tag.val != 0 or len(rest) < 3:
+        return tm.FALSE
+    ok = (rest[0][0] == "pop" and rest[0][2] == "elem" and rest[1] == ("restore", "popped save-stack element")
+          and rest[2][0] == "pop" and rest[2][2].startswith("font:") and rest[2][1] != rest[0][1])
+    vm = st.roots[0]
+    while isinstance(vm, Ref):
+        vm = vm.cell.v
+    current_font = vm.fields[3].fields[6]
+    if rest[2][2] == "font:some":
+        ok = ok and rest[3:] == [("font_hook", "saved font")] and getattr(current_font, "what", None) == "saved font"
+    else:
+        ok = ok and rest[3:] == [] and getattr(current_font, "what", None) != "saved font"
+    return tm.B(ok)
+
+
 PROP = {
     "title": "Group scoping: local assignments undone, global ones survive (mechanism level)",
     "level_text": (
@@ -273,7 +329,7 @@ PROP = {
     "explanation": "See the module docstring of props/C01.py.",
     "outside": [
         "TeX-level histories through VM::run (\\\\count, \\\\def, \\\\let, \\\\catcode, fonts, \\\\global/\\\\globaldefs prefixes): NOT decided",
-        "SaveStackMap::restore (iterates a std HashMap and calls getters through function pointers) and SaveStackMap::save's keep-the-first-value rule (std HashMap::entry); VM::end_group (pops, restores through function pointers, builds error values)",
+        "SaveStackMap::restore (iterates a std HashMap and calls getters through function pointers) and SaveStackMap::save's keep-the-first-value rule (std HashMap::entry)",
         "which tokens may follow \\\\global and the dispatch of prefixed commands (prefix.rs process_prefixes): token-level, VM-bound; only the flag's state machine (set_scope / read_and_reset_global) is decided",
         "more than 3 open groups for the protocol obligations, histories beyond the C20 bounds",
     ],
@@ -291,6 +347,17 @@ PROP = {
                  bound="closes a group in both maps; Ok iff both succeed; an error of the first is returned before the second is touched"),
             update_obligation(1), update_obligation(2), update_obligation(3),
             set_obligation(0), set_obligation(2),
+            dict(engine="B", name="c01_vm_end_group", crates=CR, fn=("texlang", "end_group", "VM", None), args=[("self", "&mut VM"), ("token", "opaque Token")],
+                 env_models=[(r"^GroupingContainer::<.*>::end_group$", env_container_end),
+                             (r"^VM::<S>::fatal_error::<.*>$", env_fatal_error),
+                             (r"^Vec::<.*>::pop$", env_vec_pop),
+                             (r"^(?:streams::)?ExecutionInput::<S>::new$", env_input_new),
+                             (r"^SaveStackElement::<S>::restore$", env_restore),
+                             (r"^<S as (?:vm::)?TexlangState>::enable_font_hook$", env_font_hook)],
+                 post=post_vm_end, post_state=True,
+                 funcs=["texlang::vm::VM::end_group (MIR; Map::end_group inlined from the dump; containers, the two Vec::pop, restore, fatal_error and the font hook stubbed)"],
+                 bound="closing a group: if either command map refuses, an error is returned and nothing is popped; otherwise exactly one element is popped from the variable save stack and restored, one entry is popped from the (distinct) font stack, and iff it holds a font that font becomes current and the hook is called with it",
+                 assumes=["the two save stacks are as deep as the command maps (established by c01_vm_begin_group): the stubbed pops return Some"]),
             dict(engine="B", name="c01_vm_begin_group", crates=CR, fn=("texlang", "begin_group", "VM", None), args=[("self", "&mut VM")],
                  env_models=[(r"^GroupingContainer::<.*>::begin_group$", env_container_begin),
                              (r"^<SaveStackElement<S> as Default>::default$", env_default_elem),
